@@ -27,6 +27,11 @@ Kernels (DESIGN.md section 4, C06):
        different model - and both results are compared with the oracle.
   K3   contexts restricted to a simple expression: `line-num INTEGER-MATCHER` inside line-matcher
        expressions; `line-num == K0 && A` is `(line-num == K0) && A`, never `line-num (== K0 && A)`.
+  K3b  simple contexts of the text matcher: `-transformed-by T M` and `every|any line : LM` bind ONE simple
+       expression ("may not contain infix operators (unless inside parentheses)"): `-transformed-by T A && B` is
+       `( -transformed-by T A ) && B` - B is asked about the ORIGINAL text.  In-memory text model, T a stub
+       transformer that tags the model, stub leaves that log the model they see and whose verdict may depend on it;
+       compared: value, asking order and the model each leaf saw.
 
 How the work is split between plain execution and the solver.  Shapes, layouts and token strings
 are a finite catalogue that the harness enumerates itself; on this concrete text the real parser
@@ -150,11 +155,27 @@ STUB_MODEL = ('model of text matchers: an object with freeze() (the combinators 
 STUB_NOTRACE = ('CrossHair tracing is suspended (crosshair.tracers.NoTracing) while the real parser and the reference recogniser '
                 'run on the CONCRETE text of the enumerated catalogue; resolution and application run traced, on symbolic leaf values')
 
+STUB_CTX = ('text model: an in-memory one-line text (`l` + one `T` per transformation applied) offering freeze() and contents().as_lines; '
+            'T: symbol bound to a transformer of a class unknown to exactly_lib that appends its tag; leaves A, B, C (text matchers) and P, Q '
+            '(line matchers) of classes unknown to exactly_lib, bound to symbols, which log the model they are asked about; the verdict of A and B '
+            'is one symbolic bool on an untransformed and another on a transformed model')
+REAL_CTX = (
+    'exactly_lib.impls.types.string_matcher.parse_string_matcher._parse_on_transformed',
+    'exactly_lib.impls.types.string_matcher.parse_string_matcher._simple_expressions',
+    'exactly_lib.impls.types.string_matcher.impl.on_transformed.StringMatcherWithTransformation.matches_w_trace',
+    'exactly_lib.impls.types.string_matcher.impl.on_transformed.StringMatcherWithTransformationSdv',
+    'exactly_lib.impls.types.matcher.impls.parse_quantified_matcher.parse_after_quantifier_token',
+    'exactly_lib.impls.types.matcher.impls.parse_quantified_matcher.GrammarSetup',
+    'exactly_lib.impls.types.matcher.impls.quantifier_matchers._QuantifierBase.matches_w_trace',
+    'exactly_lib.impls.types.string_matcher.impl.line_matchers._get_line_elements',
+)
+
 OUT_PRIMS = ('primitives with their own argument syntax inside expressions (C05, C13, C15); only symbol references, '
              '`constant`, integer comparisons and `line-num` are used as leaves')
 OUT_TOKENIZER = 'the tokenizer itself (quoting, token boundaries: C09); tokens are separated by blanks, tabs and line breaks here'
-OUT_SIMPLE = ('contexts restricted to a simple expression other than the simple parser of each host type itself and `line-num` '
-              '(`num-lines`, `every line :`, `contents`, `dir-contents`, `-selection`, `-transformed-by` need file-backed models: C05, C15)')
+OUT_SIMPLE = ('contexts restricted to a simple expression other than the simple parser of each host type itself, `line-num`, '
+              '`-transformed-by T M` and `every|any line : LM` of the text matcher '
+              '(`num-lines`, file matcher `contents` / `dir-contents`, files matcher `-selection` / `every|any file :`: C05, C15)')
 
 # --------------------------------------------------------------------------- known-finding regions
 #
@@ -291,7 +312,7 @@ def _gap_info(units):
             depth += 1
         elif u == ')':
             depth -= 1
-        if u == 'line-num':
+        if u in R.UNIT_CONTEXT:
             out.append((False, False))  # the argument syntax of a primitive is not this property's subject
         else:
             out.append((depth >= 1 or u in INFIX or u == '!', True))
@@ -409,6 +430,54 @@ def _k3_items(case):
         yield it
 
 
+# ---- K3b: simple contexts of the text matcher: `-transformed-by T M`, `every line : LM`, `any line : LM`
+
+TEXT_LEAVES = ('A', 'B', 'C')
+LINE_LEAVES = ('P', 'Q')
+
+
+def _k3b_trees(case):
+    a, b, c = (('L', n) for n in TEXT_LEAVES)
+    p, q = (('L', n) for n in LINE_LEAVES)
+    small = case.get('small')  # quick tier: fewer context nodes and surroundings, no third operand
+    if case['ctx'] == 'X':
+        nodes = [('X', a), ('X', ('!', a)), ('X', ('&&', [a, b])), ('X', ('X', a))]
+        if not small:
+            nodes += [('X', ('P', a)), ('X', ('||', [a, b])), ('X', ('!', ('||', [a, b])))]
+    else:
+        nodes = [('Qe', p), ('Qa', p), ('Qe', ('&&', [p, q])), ('Qa', ('!', p)), ('X', ('Qe', p))]
+        if not small:
+            inner = [p, ('!', p), ('P', p), ('&&', [p, q]), ('||', [p, q])]
+            nodes = [(k, t) for k in ('Qe', 'Qa') for t in inner]
+            nodes += [('X', ('Qe', p)), ('Qa', ('!', ('&&', [p, q])))]
+    out = []
+    for n in nodes:
+        out += [n, ('!', n), ('&&', [n, b]), ('||', [n, b]), ('&&', [b, n]), ('||', [b, n]),
+                ('&&', [('!', n), b]), ('&&', [('P', n), b])]
+        if not small:
+            out += [('P', n), ('||', [n, ('&&', [b, c])]), ('&&', [n, ('||', [b, c])]), ('&&', [n, b, c]), ('||', [n, b, c]),
+                    ('||', [b, ('&&', [n, c])]), ('&&', [('||', [b, n]), c]), ('||', [('P', ('&&', [n, b])), c])]
+    if case['ctx'] == 'X':
+        out += [('&&', [('X', a), ('X', b)]), ('&&', [a, ('X', a)]), ('||', [('X', a), b, a])]
+        if not small:
+            out += [('||', [('X', a), ('&&', [('X', b), c])])]
+    else:
+        out += [('&&', [('Qe', p), ('Qa', q)]), ('||', [('Qa', p), ('Qe', q), b])]
+        if not small:
+            out += [('||', [('Qa', p), ('&&', [('X', ('Qe', q)), b])]), ('&&', [('X', a), ('Qe', p), a])]
+    part, nparts = case.get('part', (0, 1))
+    return [t for i, t in enumerate(out) if i % nparts == part]
+
+
+K3B_MALFORMED = ('-transformed-by T', '-transformed-by T &&', '-transformed-by T A &&', '-transformed-by T ( A && B',
+                 'every line :', 'every line : &&', 'any line : ( P', 'every line P', '-transformed-by && A')
+
+
+def _k3b_items(case):
+    for it in _k1_items(case, _k3b_trees(case)):
+        yield it
+
+
 # --------------------------------------------------------------------------- stage 1: the concrete stage
 
 _STAGE1 = {}
@@ -453,8 +522,11 @@ def _stage1_compute(case):
         if family == 'K3':
             names = STUB_NAMES
             arg_prims = {'line-num': tuple(case['cmp'])}
+        if family == 'K3b':
+            names = TEXT_LEAVES
+            arg_prims = {'-transformed-by T': TEXT_LEAVES, 'every line :': LINE_LEAVES, 'any line :': LINE_LEAVES}
         items = (_k2_items(case) if family == 'K2' else _k3_items(case) if family == 'K3'
-                 else _w_items(case) if family == 'W' else _k1_items(case))
+                 else _k3b_items(case) if family == 'K3b' else _w_items(case) if family == 'W' else _k1_items(case))
         bad = []
         classes = {}
         n_items = 0
@@ -608,6 +680,36 @@ def k_int(x: int, k0: int, k1: int, k2: int, v0: bool, v1: bool) -> bool:
     return ob.post(good)
 
 
+def k_ctx(a0: bool, a1: bool, b0: bool, b1: bool, c: bool, p: bool, q: bool) -> bool:
+    """
+    post: _
+    """
+    from harness import _C06_real as X
+    case = ob.case()
+    bad, classes, _n = _stage1(case)
+    for b in bad:
+        _note(*b)
+    good = not bad
+    bug = case.get('oracle_bug')
+    with X.concrete():
+        prims = [X.ctx_primitive(sdv, TEXT_LEAVES, LINE_LEAVES) for sdv, _tree, _src in classes]
+    verdicts = dict(A=(a0, a1), B=(b0, b1), C=(c, c), P=(p, p), Q=(q, q))
+    for n in verdicts:
+        X.CTX_VERDICTS[n] = verdicts[n]
+    for i, (sdv, tree, src) in enumerate(classes):
+        asked = []
+        # seeded oracle error 'no-transform': the oracle forgets that `-transformed-by T` transforms the model
+        want = R.ref_eval_ctx(tree, (), lambda n, transformed: verdicts[n][1 if transformed else 0], asked,
+                              transforms=(bug != 'no-transform'))
+        for _application in (1, 2):  # the parsed object denotes a function: apply it to two (equal) models
+            del X.CTX_LOG[:]
+            got = prims[i].matches_w_trace(X.TaggedText()).value
+            if bool(got) != bool(want) or X.CTX_LOG != asked:
+                good = False
+                _note('value / asking order / model seen differs', src, 'got', bool(got), list(X.CTX_LOG), 'want', bool(want), asked)
+    return ob.post(good)
+
+
 def k_trans(i0: bool, i1: bool, i2: bool, i3: bool, t0: int, t1: int, t2: int, t3: int) -> bool:
     """
     post: _
@@ -757,8 +859,8 @@ def _k1_obligations(tier) -> List[Ob]:
         for part in range(nparts):
             case = dict(family=family, host=host, trees=trees, layout=layout, part=(part, nparts))
             case.update(extra)
-            n_trees = len(_k3_trees(case) if family == 'K3' else _k1_trees(case))
-            leaves = ' / '.join('{' + ', '.join(ls) + '}' for ls in trees['leaves']) if trees else '{%s, %s, A, B}' % tuple(extra['cmp'])
+            n_trees = len(_k3_trees(case) if family == 'K3' else _k3b_trees(case) if family == 'K3b' else _k1_trees(case))
+            leaves = ' / '.join('{' + ', '.join(ls) + '}' for ls in trees['leaves']) if trees else ''
             lay = 'every placement of <= %d line breaks at ANY gap between tokens' % layout.get('nl', 0)
             if layout.get('nlkinds'):
                 lay += ', single line breaks with blanks before / indentation after / doubled'
@@ -768,11 +870,19 @@ def _k1_obligations(tier) -> List[Ob]:
                 lay += ', line breaks before the expression'
             if family == 'K3':
                 shape = '%d line-matcher trees over `line-num INTEGER-MATCHER` and stub leaves' % n_trees
+            elif family == 'K3b':
+                shape = ('%d text-matcher trees (part %d/%d) over %s applied to one SIMPLE expression, combined with `!`, `&&`, `||`, '
+                         'parentheses and stub leaves A, B, C (text) / P, Q (line)' % (
+                             n_trees, part + 1, nparts,
+                             '`-transformed-by T`' if extra['ctx'] == 'X' else '`every line :` / `any line :` (and `-transformed-by T`)'))
             else:
                 shape = '%d trees (part %d/%d): every tree over the leaves %s in this order, nesting <= %d, <= %d nodes of kind %s' % (
                     n_trees, part + 1, nparts, leaves, trees['depth'], trees['wrappers'],
                     ' / '.join({'!': '`!`', 'P': 'redundant ( )'}[w] for w in trees.get('wrapper_kinds', ('!', 'P'))))
             sym = _leafdoc(host) if fn != 'k_int' else 'every integer K_i, every model integer x, every verdict of the stub leaves (symbolic)'
+            if fn == 'k_ctx':
+                sym = ('every verdict of A and B on the original and on the transformed text, of C, P, Q (symbolic); compared: value, '
+                       'asking order and the model each leaf was asked about, on two applications')
             obs.append(Ob(
                 name='%s:%s:%s%s' % (family, host, name, (':p%d' % part) if nparts > 1 else ''), fn=fn, case=case, kernel=family,
                 bound='%s host: %s; layouts: %s; parsers full/simple x on-current-line/any-line (catalogue enumerated by the harness); %s' % (
@@ -834,6 +944,14 @@ def _k1_obligations(tier) -> List[Ob]:
         add('K3', 'line', 'line-num:%d' % i, 'k_int', None, dict(nl=2 if thorough else 1, lead=True), 3000 if thorough else 1200,
             nparts=4 if thorough else 2, extra_real=REAL_INT + REAL_LINE_NUM, stubs=C, cmp=cmp_,
             malformed=tuple(m.format(*cmp_) for m in K3_MALFORMED))
+    # ---- K3b: simple contexts of the text matcher
+    B3 = (STUB_CTX, STUB_NOTRACE)
+    for ctx in ('X', 'Q'):
+        add('K3b', 'string', {'X': 'transformed-by', 'Q': 'line-quantifiers'}[ctx], 'k_ctx', None,
+            dict(nl=2 if thorough else 1, lead=True, ws=thorough), 1200, nparts=4 if thorough else 1,
+            extra_real=REAL_CTX, stubs=B3[:1], ctx=ctx, malformed=K3B_MALFORMED, small=not thorough)
+    add('K3b', 'string', 'seeded:no-transform', 'k_ctx', None, dict(nl=0), 300, extra_real=REAL_CTX, stubs=B3[:1],
+        ctx='X', oracle_bug='no-transform', small=True, part=(0, 4))
     add('K3', 'line', 'seeded:lt-for-le', 'k_int', None, dict(nl=0), 300, extra_real=REAL_INT + REAL_LINE_NUM, stubs=C,
         cmp=('<= K0', '< K1'), oracle_bug='lt-for-le', part=(0, 8))
     return obs
